@@ -1,5 +1,6 @@
 (* C17 - pattern operations agree with one token-wise grammar.
    Only statements; every proof is `exact <lemma of Pattern/Proofs.v>`. *)
+From Coq Require Import String.
 From GoRes Require Import Pattern.Spec Pattern.Proofs.
 Open Scope N_scope.
 
@@ -41,11 +42,23 @@ Theorem valid_path_spec : forall p,
   is_valid_path p = is_nil p || (tvalid p && forallb (fun t => match kind t with KLit => true | _ => false end) (tokens p)).
 Proof. exact valid_path_spec_pf. Qed.
 
-(* id -> rid -> id is the identity for every id that is a valid name part *)
+(* and conversely: when Matches(p,q) is false some name of q is not a name of p *)
+Theorem covers_complete : forall p q,
+  is_valid p = true -> is_valid q = true -> matches p q = false ->
+  exists s, no_gt_start s = true /\ matches q s = true /\ matches p s = false.
+Proof. exact covers_complete_pf. Qed.
+
+(* id -> rid -> id is the identity for every id that is a valid name part (valid pattern) *)
 Theorem id_roundtrip : forall tag p id,
+  is_valid p = true ->
   is_valid_part id = true -> nodupb (tag_names p) = true -> existsb (beq tag) (tag_names p) = true ->
   rid_to_id tag p (id_to_rid tag p id) = Some id.
-Proof. exact id_roundtrip_pf. Qed.
+Proof. exact id_roundtrip_valid_pf. Qed.
+(* ... and validity of the pattern is needed: ">.$a" is a counterexample *)
+Theorem id_roundtrip_invalid_pattern_refuted : exists tag p id,
+  is_valid_part id = true /\ nodupb (tag_names p) = true /\ existsb (beq tag) (tag_names p) = true /\
+  rid_to_id tag p (id_to_rid tag p id) <> Some id.
+Proof. exact id_roundtrip_refuted_pf. Qed.
 
 (* the scanner before the fix violated matches_iff_values (witness "a$b" / "axyz") *)
 Theorem matches_v0_refuted : exists p s,
